@@ -13,6 +13,8 @@ from ..values import Arr, Unsupported
 from .common import find_entry, interiors, entry_summary, short
 from .simtools import sim_configs, stepped_sim, array_attr_names
 
+CASE_SPLIT = True     # orderings between different grid sizes are analysed case by case (regions.run_under_size_cases)
+
 
 def is_zero(e):
     e = PW.of(e)
